@@ -7,7 +7,8 @@
        blocks     number of recorded unit-variance draw blocks that explain the four ASE quadratures
        distinct   the four quadratures use four different blocks
        var_ppm    |sigma^2_fitted / (Units!AseQuadrature evaluated at the call's parameters) - 1| in ppm
-     bw    [ppt]            EDFA(x, BW) = BPF(EDFA(x)) under the same seed
+     bw    [ppt]            EDFA(x, BW) = BPF(EDFA(x)) under the same seed; also: the same seeded call after a different gv
+                            configuration = the call made by a freshly imported library instance (history independence)
      type  [raised]         non-optical input                                                     *)
 EXTENDS Integers, Sequences, TLC, Json, IOUtils
 Trace == ndJsonDeserialize(IOEnv.IN_FILE)
